@@ -12,7 +12,7 @@ def run(prop, tier, seed, ctx):
     ctx.assumptions += ["CPython's own parser (ast.parse) is the oracle; its verdict and line are logged next to verify()'s",
                         "texts: templates per outcome class in histories of two verify calls, and corpus files with 0-3 random "
                         "character insertions / deletions / newline conversions (tabs, form feed, NUL, CR, BOM, non-ASCII)",
-                        "parser resource exhaustion (RecursionError on pathological nesting) is not generated"]
+                        "texts the parser cannot even take (lone surrogates) or gives up on (nesting too deep) count as rejected without a line"]
     ctx.cov["rule"] = ("case = one history of verify calls (outcome classes enumerated by TLC) or one mutated text; every call is "
                        "logged as an event and validated by TLC against CallOk; non-trivial = the parser rejects the text or "
                        "the text is blank; distinct = distinct text")
